@@ -37,6 +37,8 @@ GOALS = [
     # the constant on the left of a comparison; a comparison of two expressions; a constant-only side
     [["<=", "2.5", ["f", "o1"]], [">", "10", ["+", ["f", "o1"], ["g"]]]],
     [["<", ["*", "2", ["g"]], ["-", ["f", "o1"], ["g"]]], [">=", ["-", "1", "0.5"], ["g"]], ["p", "o1"]],
+    # literals of one predicate that are not next to each other, a predicate three times
+    [["p", "o1"], ["q", "o1", "o2"], ["p", "o3"], ["r"], ["q", "o2", "o2"], ["p", "k"]],
 ]
 OBJECT_SETS = [dict(G.OBJECTS), {"o1": "t1", "o2": "t1", "o3": "t3", "u1": "t2", "u2": "t2", "o4": "t3"},
                # objects of the root type declared before / between objects of proper types (a bare name in a typed list
